@@ -52,10 +52,10 @@ Proof. exact C13Facts.skeleton_http_row. Qed.
 Print Assumptions C13_skeleton_http_row.
 
 (* the same through renderobjinfo: all selectors (URL: forms included), hosts, ports, names *)
-Theorem C13_skeleton_http_renderobjinfo : forall icons sn e1 e2 r1 r2,
+Theorem C13_skeleton_http_renderobjinfo : forall icons sn dp e1 e2 r1 r2,
   icons_ok icons = true ->
   type_is e1 T_INFO = type_is e2 T_INFO -> type_is e1 T_SEARCH = type_is e2 T_SEARCH ->
-  http_renderobjinfo icons sn e1 = Some r1 -> http_renderobjinfo icons sn e2 = Some r2 ->
+  http_renderobjinfo icons sn dp e1 = Some r1 -> http_renderobjinfo icons sn dp e2 = Some r2 ->
   skeleton r1 = skeleton r2.
 Proof. exact C13Facts.skeleton_http_renderobjinfo. Qed.
 Print Assumptions C13_skeleton_http_renderobjinfo.
@@ -112,11 +112,11 @@ Print Assumptions C13_skeleton_url_page.
 Theorem C13_url_href_refuted :
   exists e1 e2 r1 r2 w1 w2,
     type_is e1 T_INFO = type_is e2 T_INFO /\ type_is e1 T_SEARCH = type_is e2 T_SEARCH /\
-    http_renderobjinfo_pinned [] (lit "gopher.example") e1 = Some r1 /\
-    http_renderobjinfo_pinned [] (lit "gopher.example") e2 = Some r2 /\
+    http_renderobjinfo_pinned [] (lit "gopher.example") 70%Z e1 = Some r1 /\
+    http_renderobjinfo_pinned [] (lit "gopher.example") 70%Z e2 = Some r2 /\
     skeleton r1 <> skeleton r2 /\
-    wap_renderobjinfo_gen false (lit "/wap") (lit "gopher.example") WAP0 e1 = Some w1 /\
-    wap_renderobjinfo_gen false (lit "/wap") (lit "gopher.example") WAP0 e2 = Some w2 /\
+    wap_renderobjinfo_gen false (lit "/wap") (lit "gopher.example") 70%Z WAP0 e1 = Some w1 /\
+    wap_renderobjinfo_gen false (lit "/wap") (lit "gopher.example") 70%Z WAP0 e2 = Some w2 /\
     skeleton (fst w1) <> skeleton (fst w2).
 Proof. exact C13Facts.url_href_refuted. Qed.
 Print Assumptions C13_url_href_refuted.
@@ -165,7 +165,7 @@ Print Assumptions C13_gplus_reads.
 Example C13_example :
   let e := mkEntry (lit "URL:http://x/""><script>") (Some (lit "h")) (Some (lit "</TT><H1>&""x"))
                    None None (Some (lit "a/<b>")) None None None None None None 0%Z false false [] in
-  (exists r, http_renderobjinfo [(lit "h", lit "text.gif")] (lit "gopher.example") e = Some r /\
+  (exists r, http_renderobjinfo [(lit "h", lit "text.gif")] (lit "gopher.example") 70%Z e = Some r /\
              skeleton r = [EStart (lit "tr") []; EStart (lit "td") [];
                            EStart (lit "img") [lit "alt"; lit "src"; lit "width"; lit "height"; lit "border"];
                            EEnd (lit "td"); EStart (lit "td") []; EStart (lit "a") [lit "href"];
